@@ -101,14 +101,16 @@ func (l *LSTM) Apply(inputs []tensor.Tensor) ([]tensor.Tensor, error) {
 		return nil, err
 	}
 
-	Ht := inputs[5]
-	if Ht == nil {
-		Ht = ops.ZeroTensor(1, batchSize, l.hiddenSize)
+	// The initial states are reshaped below, hence we work on copies: the tensors
+	// given as input may be model weights or belong to the caller.
+	Ht := ops.ZeroTensor(1, batchSize, l.hiddenSize)
+	if inputs[5] != nil {
+		Ht = inputs[5].Clone().(tensor.Tensor)
 	}
 
-	Ct := inputs[6]
-	if Ct == nil {
-		Ct = ops.ZeroTensor(1, batchSize, l.hiddenSize)
+	Ct := ops.ZeroTensor(1, batchSize, l.hiddenSize)
+	if inputs[6] != nil {
+		Ct = inputs[6].Clone().(tensor.Tensor)
 	}
 
 	var Pi, Po, Pf tensor.Tensor
